@@ -122,17 +122,19 @@ package ergo
 //@   modifies nothing
 
 //@ func listTasks
-//@   option elems-index
+//@   option elems-index sort-total
 //@   requires [wf] wfGraph(graph) && wfIDs(graph)
 //@   ensures [members] forall t *Task :: contains(ret, t) <==>
 //@        (inGraph(graph, t) && epicMatch(t, epicID) && (readyOnly ==> specReady(t, graph)))
 //@   ensures [by-id] forall i int, j int :: 0 <= i && i < j && j < len(ret) ==> ret[i].ID <= ret[j].ID
 //@   ensures [fresh] ret == nil || fresh(ret)
+//@   ensures [nonnil] forall i int :: 0 <= i && i < len(ret) ==> ret[i] != nil
 //@   modifies nothing
 //@ loop 0 range graph.Tasks
 //@   invariant [members] forall t *Task :: contains(tasks, t) <==>
 //@        (inGraph(graph, t) && visited(t.ID) && epicMatch(t, epicID) && (readyOnly ==> specReady(t, graph)))
 //@   invariant [fresh] tasks == nil || fresh(tasks)
+//@   invariant [distinct-ids] forall a int, b int :: 0 <= a && a < b && b < len(tasks) ==> tasks[a].ID != tasks[b].ID
 
 //@ func filterTasksByKind
 //@   requires [elems] forall k int :: 0 <= k && k < len(tasks) ==> tasks[k] != nil
@@ -856,3 +858,118 @@ package ergo
 //@   ensures [no-log-primitive] logv == old(logv) && commits == old(commits)
 //@   ensures [json-one-value] opts.JSON && ret == nil ==> stdoutJSON == old(stdoutJSON) + 1 && stdoutText == old(stdoutText)
 //@   modifies ghost fsWrites, ghost stdoutJSON, ghost stdoutText, ghost stderrText
+
+// ---- list (C08 flags, C12 determinism and read purity, C16, C19 structure) ----
+//@ func buildTaskListItems
+//@   requires [wf] wfGraph(graph) && (forall k int :: 0 <= k && k < len(tasks) ==> tasks[k] != nil)
+//@   ensures [len] len(ret) == len(tasks)
+//@   ensures [flags] forall i int :: 0 <= i && i < len(tasks) ==>
+//@        ret[i].ID == tasks[i].ID && ret[i].State == tasks[i].State && ret[i].ClaimedBy == tasks[i].ClaimedBy &&
+//@        ret[i].EpicID == tasks[i].EpicID && ret[i].Title == tasks[i].Title &&
+//@        (ret[i].Ready <==> specReady(tasks[i], graph)) && (ret[i].Blocked <==> specBlocked(tasks[i], graph)) &&
+//@        ret[i].Kind == ite(tasks[i].IsEpic, "epic", "task")
+//@   modifies nothing
+//@ loop 0 range tasks
+//@   invariant [built] len(items) == index && fresh(items) && cap(items) >= len(tasks) && index <= len(tasks)
+//@   invariant [flags] forall i int :: 0 <= i && i < index ==>
+//@        items[i].ID == tasks[i].ID && items[i].State == tasks[i].State && items[i].ClaimedBy == tasks[i].ClaimedBy &&
+//@        items[i].EpicID == tasks[i].EpicID && items[i].Title == tasks[i].Title &&
+//@        (items[i].Ready <==> specReady(tasks[i], graph)) && (items[i].Blocked <==> specBlocked(tasks[i], graph)) &&
+//@        items[i].Kind == ite(tasks[i].IsEpic, "epic", "task")
+
+//@ func sortByCreatedAt$1
+//@   requires [idx] 0 <= i && i < len(tasks) && 0 <= j && j < len(tasks)
+//@   requires [elems] forall k int :: 0 <= k && k < len(tasks) ==> tasks[k] != nil
+//@   ensures [less] ret <==> (tasks[i].CreatedAt < tasks[j].CreatedAt ||
+//@        (tasks[i].CreatedAt == tasks[j].CreatedAt && tasks[i].ID < tasks[j].ID))
+//@   modifies nothing
+//@ func sortByCreatedAt
+//@   option sort-total
+//@   requires [elems] forall k int :: 0 <= k && k < len(tasks) ==> tasks[k] != nil
+//@   requires [distinct-ids] forall a int, b int :: 0 <= a && a < b && b < len(tasks) ==> tasks[a].ID != tasks[b].ID
+//@   ensures [members] forall t *Task :: contains(tasks, t) <==> old(contains(tasks, t))
+//@   modifies []*Task at tasks
+
+//@ func computeStatsForTasks
+//@   requires [wf] wfGraph(graph)
+//@   ensures [total-is-sum] ret.total == ret.ready + ret.inProgress + ret.blocked + ret.errors + ret.done + ret.canceled
+//@   ensures [nonneg] ret.ready >= 0 && ret.inProgress >= 0 && ret.blocked >= 0 && ret.errors >= 0 && ret.done >= 0 && ret.canceled >= 0
+//@   ensures [bounded] ret.total <= len(tasks)
+//@   modifies nothing
+//@ loop 0 range tasks
+//@   invariant [sum] stats.total == stats.ready + stats.inProgress + stats.blocked + stats.errors + stats.done + stats.canceled
+//@   invariant [nonneg] stats.ready >= 0 && stats.inProgress >= 0 && stats.blocked >= 0 && stats.errors >= 0 && stats.done >= 0 && stats.canceled >= 0
+//@   invariant [bounded] stats.total <= index && index <= len(tasks)
+//@ func collectNonEpicTasks
+//@   requires [wf] wfGraph(graph) && wfIDs(graph)
+//@   ensures [members] forall t *Task :: contains(ret, t) <==> (inGraph(graph, t) && !t.IsEpic)
+//@   ensures [fresh] ret == nil || fresh(ret)
+//@   modifies nothing
+//@ loop 0 range graph.Tasks
+//@   invariant [members] forall t *Task :: contains(tasks, t) <==> (inGraph(graph, t) && visited(t.ID) && !t.IsEpic)
+//@   invariant [fresh] tasks == nil || fresh(tasks)
+//@ func filterActiveTasks
+//@   requires [elems] forall k int :: 0 <= k && k < len(tasks) ==> tasks[k] != nil
+//@   ensures [members] forall t *Task :: contains(ret, t) <==> (contains(tasks, t) && !finished(t.State))
+//@   ensures [fresh] ret == nil || fresh(ret)
+//@   modifies nothing
+//@ loop 0 range tasks
+//@   invariant [members] forall t *Task :: contains(active, t) <==> (prefixHas(tasks, index, t) && !finished(t.State))
+//@   invariant [fresh] (active == nil || fresh(active)) && index <= len(tasks)
+//@ func filterReadyTasks
+//@   requires [wf] wfGraph(graph)
+//@   ensures [members] forall t *Task :: contains(ret, t) <==> (contains(tasks, t) && t != nil && specReady(t, graph))
+//@   ensures [fresh] ret == nil || fresh(ret)
+//@   modifies nothing
+//@ loop 0 range tasks
+//@   invariant [members] forall t *Task :: contains(ready, t) <==> (prefixHas(tasks, index, t) && t != nil && specReady(t, graph))
+//@   invariant [fresh] (ready == nil || fresh(ready)) && index <= len(tasks)
+
+//@ func buildListRoots
+//@   trusted builds the tree of fresh nodes for the human view (structure is the subject of C19); does not modify the graph
+//@   ensures [true] true
+//@   modifies nothing
+//@ func stateIcon
+//@   requires [task] task != nil
+//@   ensures [true] true
+//@   modifies nothing
+//@ func formatTreeLine
+//@   trusted row layout (width arithmetic over go-runewidth; subject of C19's bounded part)
+//@   ensures [true] true
+//@   modifies nothing
+//@ func getTerminalWidth
+//@   trusted term.GetSize
+//@   ensures [true] true
+//@   modifies nothing
+//@ func RunList
+//@   option elems-index
+//@   requires [unlocked] lk == 0
+//@   ensures [read-pure] logv == old(logv) && commits == old(commits) && lk == 0 && fsWrites == old(fsWrites)
+//@   ensures [json-one-value] opts.JSON && ret == nil ==> stdoutJSON == old(stdoutJSON) + 1 && stdoutText == old(stdoutText)
+//@   ensures [json-error-quiet] opts.JSON && ret != nil ==> stdoutJSON == old(stdoutJSON) && stdoutText == old(stdoutText)
+//@   modifies ghost readEpoch, ghost stdoutJSON, ghost stdoutText, ghost stderrText
+//@ loop 0 range tasks
+//@   invariant [tasks-only] (tasksOnly == nil || (fresh(tasksOnly) && freshSinceEntry(tasksOnly))) && (forall k int :: 0 <= k && k < len(tasksOnly) ==> tasksOnly[k] != nil)
+//@   invariant [source-kept] forall k int :: 0 <= k && k < len(tasks) ==> tasks[k] != nil
+//@ loop 1 range tasksOnly
+//@   invariant [active] (active == nil || (fresh(active) && freshSinceEntry(active))) && (forall k int :: 0 <= k && k < len(active) ==> active[k] != nil)
+//@   invariant [source-kept] forall k int :: 0 <= k && k < len(tasksOnly) ==> tasksOnly[k] != nil
+//@ loop 2 range graph.Tasks
+//@   invariant [epics] (epics == nil || fresh(epics)) && (forall k int :: 0 <= k && k < len(epics) ==> epics[k] != nil && visited(epics[k].ID) && inGraph(graph, epics[k]))
+//@   invariant [distinct-ids] forall a int, b int :: 0 <= a && a < b && b < len(epics) ==> epics[a].ID != epics[b].ID
+//@ loop 3 range epics
+//@   invariant [true] true
+
+//@ func resolveErgoDir
+//@   trusted upward directory search with os.Stat/filepath (string algebra; see C18)
+//@   ensures [true] true
+//@   modifies nothing
+//@ func debugf
+//@   trusted writes a debug line to stderr when opts.Verbose
+//@   ensures [true] true
+//@   modifies ghost stderrText
+//@ func RunWhere
+//@   ensures [read-pure] logv == old(logv) && commits == old(commits) && lk == old(lk) && fsWrites == old(fsWrites)
+//@   ensures [json-one-value] opts.JSON && ret == nil ==> stdoutJSON == old(stdoutJSON) + 1 && stdoutText == old(stdoutText)
+//@   ensures [json-error-quiet] opts.JSON && ret != nil ==> stdoutJSON == old(stdoutJSON) && stdoutText == old(stdoutText)
+//@   modifies ghost stdoutJSON, ghost stdoutText, ghost stderrText
